@@ -35,7 +35,7 @@
 (* total size, or inside the discarded remainder of a refused command) are   *)
 (* outside the domain: Run marks them `amb` and no verdict is given.         *)
 (***************************************************************************)
-EXTENDS Integers, Sequences, FiniteSets, TLC
+EXTENDS Integers, Sequences, FiniteSets, SequencesExt, TLC
 
 CR == 13
 LF == 10
@@ -49,42 +49,34 @@ BigN == 2147483647
 IsDigit(t) == t >= 48 /\ t <= 57
 Sz(t) == IF t < 0 THEN 0 - t ELSE 1
 
-RECURSIVE SizeTo(_, _)
-SizeTo(s, i) == IF i = 0 THEN 0 ELSE SizeTo(s, i - 1) + Sz(s[i])
-Size(s) == SizeTo(s, Len(s))
+(* linear scans are folds (evaluated iteratively by TLC), not recursions *)
+Idx(s) == [j \in 1..Len(s) |-> j]
+Size(s) == FoldLeft(LAMBDA a, t : a + Sz(t), 0, s)
+SizeTo(s, i) == Size(SubSeq(s, 1, i))
 
-RECURSIVE CanonFrom(_, _, _)
-CanonFrom(s, i, acc) ==
-    IF i > Len(s) THEN acc
-    ELSE IF s[i] < 0 /\ acc # <<>> /\ acc[Len(acc)] < 0
-         THEN CanonFrom(s, i + 1, [acc EXCEPT ![Len(acc)] = @ + s[i]])
-         ELSE CanonFrom(s, i + 1, Append(acc, s[i]))
-Canon(s) == CanonFrom(s, 1, <<>>)
+Canon(s) == FoldLeft(LAMBDA acc, t : IF t < 0 /\ acc # <<>> /\ acc[Len(acc)] < 0
+                                     THEN [acc EXCEPT ![Len(acc)] = @ + t]
+                                     ELSE Append(acc, t), <<>>, s)
 
 RECURSIVE Digits(_)
 Digits(n) == IF n < 10 THEN <<48 + n>> ELSE Append(Digits(n \div 10), 48 + (n % 10))
 
-RECURSIVE Flatten(_, _)
-Flatten(ss, i) == IF i > Len(ss) THEN <<>> ELSE ss[i] \o Flatten(ss, i + 1)
-Concat(ss) == Flatten(ss, 1)
+Concat(ss) == FoldLeft(LAMBDA a, x : a \o x, <<>>, ss)
 
 (* index of the CR of the first CRLF at or after i, 0 when there is none *)
-RECURSIVE FindCRLF(_, _)
-FindCRLF(s, i) == IF i >= Len(s) THEN 0
-                  ELSE IF s[i] = CR /\ s[i + 1] = LF THEN i
-                  ELSE FindCRLF(s, i + 1)
+FindCRLF(s, i) == FoldLeft(LAMBDA a, j : IF a = 0 /\ j >= i /\ j < Len(s) /\ s[j] = CR /\ s[j + 1] = LF
+                                         THEN j ELSE a, 0, Idx(s))
 
 (* first index of octet b at or after i, 0 when there is none *)
-RECURSIVE FindOct(_, _, _)
-FindOct(s, b, i) == IF i > Len(s) THEN 0 ELSE IF s[i] = b THEN i ELSE FindOct(s, b, i + 1)
+FindOct(s, b, i) == FoldLeft(LAMBDA a, j : IF a = 0 /\ j >= i /\ s[j] = b THEN j ELSE a, 0, Idx(s))
 
 (* split s after exactly n octets (a run may be split); needs Size(s) >= n *)
-RECURSIVE CutIdx(_, _, _, _)
-CutIdx(s, n, i, acc) == IF acc + Sz(s[i]) >= n THEN <<i, acc>>
-                        ELSE CutIdx(s, n, i + 1, acc + Sz(s[i]))
+CutIdx(s, n) == FoldLeft(LAMBDA a, j : IF a[1] # 0 THEN a
+                                       ELSE IF a[2] + Sz(s[j]) >= n THEN <<j, a[2]>>
+                                       ELSE <<0, a[2] + Sz(s[j])>>, <<0, 0>>, Idx(s))
 TakeDrop(s, n) ==
     IF n = 0 THEN [pre |-> <<>>, post |-> s]
-    ELSE LET c == CutIdx(s, n, 1, 0)
+    ELSE LET c == CutIdx(s, n)
              i == c[1]
              need == n - c[2]
              whole == need = Sz(s[i])
